@@ -16,8 +16,16 @@ echo "== demo with change"; (bash $SD/demo.sh $W >/tmp/seed_demo_mut.log 2>&1; e
 PK=$(cd $W && git diff --name-only | xargs -n1 dirname | sort -u | sed 's#^#./#' | tr '\n' ' ')
 echo "== existing tests of touched packages with change: $PK"
 (cd $W && git clean -fdq -e '!*' 2>/dev/null; find . -name 'zz_seed*' -delete; go test -vet=off -count=1 -run "$RUNRE" $PK 2>&1 | grep -E "^(ok|FAIL|---)" | head -20)
-echo "== our check on /repo with the change"
-cd /repo && git diff --quiet || { echo "repo dirty"; exit 3; }
-git apply $SD/patch.diff || exit 3
-/verif/check $ID $TIER 2>&1 | grep -E "^(VIOLATION|KNOWN|property=|HARNESS)" | cut -c1-220 | head -8
-git -C /repo checkout -- .
+if [ "${SEED_IN_REPO:-0}" = 1 ]; then
+  echo "== our check on /repo with the change"
+  cd /repo && git diff --quiet || { echo "repo dirty"; exit 3; }
+  git apply $SD/patch.diff || exit 3
+  /verif/check $ID $TIER 2>&1 | grep -E "^(VIOLATION|KNOWN|property=|HARNESS)" | cut -c1-220 | head -8
+  git -C /repo checkout -- .
+else
+  # same thing without touching /repo (safe while other runs are reading it): the scratch worktree
+  # is /repo's HEAD plus the change
+  echo "== our check on a scratch worktree of /repo HEAD with the change"
+  (cd $W && git status --short | grep -v '^??' | head -5)
+  VERIF_REPO=$W /verif/check $ID $TIER 2>&1 | grep -E "^(VIOLATION|KNOWN|property=|HARNESS)" | cut -c1-220 | head -8
+fi
